@@ -7,6 +7,7 @@ TS = SL + "TokenizerSlice"
 SBC = "<llguidance::earley::slicer::SlicedBiasComputer as llguidance::earley::parser::BiasComputer>::compute_bias"
 RV = "llguidance::earley::regexvec::RegexVec"
 SV = "toktrie::svob::SimpleVob::"
+SVT = "toktrie::svob::SimpleVob"
 TRIE = "toktrie::toktree::TokTrie::"
 
 META = dict(
@@ -239,9 +240,20 @@ def run(ctx):
         ctx.check(ok, "C10-R2", "apply:residual-walk-operand@%s" % ap.where(bi).rsplit(":", 1)[1],
                   "the residual walk uses trie_without_child[i] / trie_without_children", "apply walks %s" % F.fmt_expr(e), site=ap.where(bi))
     # `to_apply` sources: exactly the two residual tries
+    # (the multiply-assigned &TokTrie local that is the receiver of the residual add_bias walk — found by data flow)
     ta = None
-    for l, d in enumerate(ap.locals):
-        if d.get("n") == "to_apply":
+    for bi in walks:
+        pl = F.op_place(ap.blocks[bi]["term"]["args"][0])
+        l = pl[0] if pl else None
+        for _ in range(4):
+            ds = ap.defs().get(l, []) if l is not None else []
+            if len(ds) == 1 and ds[0][2] == "assign" and ds[0][3]["rv"] in ("use", "ref"):
+                nx = F.op_place(ds[0][3]["o"]) if ds[0][3]["rv"] == "use" else ds[0][3]["p"]
+                if nx and len(nx) <= 2 and len(ap.defs().get(nx[0], [])) >= 1 and not F.place_fields(nx):
+                    l = nx[0]
+                    continue
+            break
+        if l is not None and len(ap.defs().get(l, [])) >= 2 and "TokTrie" in ap.local_ty(l):
             ta = l
     if ta is not None:
         srcs = set()
@@ -344,48 +356,140 @@ def run(ctx):
         ok = e[0] in ("ref", "place") and F.place_fields(e[1])[-1:] == [(TS, "mask_with_children")]
         ctx.check(ok, "C10-R3", "residual-masks:sub-operand@%s" % ft.where(bi).rsplit(":", 1)[1], "subtracts the child's mask_with_children",
                   "sub() operand is %s" % F.fmt_expr(e), site=ft.where(bi))
-    # the tries are filtered from the masks built here
+    # ---- roles of the SimpleVob locals of from_topo_node, decided from how each is produced and mutated (not from names)
+    #   base     : allocated with alloc_token_set, filled with allow_token / set_all          (the slice's full token set)
+    #   residual : clone of base that is only ever sub()-ed                                   (base minus child masks)
+    #   trimmed  : clone of base that is only ever trim_trailing_zeros()-ed
+    vob_locals = [l for l in range(len(ft.locals)) if ft.local_ty(l) == SVT and (ft.locals[l].get("n") or len(ft.defs().get(l, [])) == 1)]
+    muts = {l: set() for l in vob_locals}
+    for bi, t in ft.calls():
+        d = t["f"].get("def", "")
+        if d.startswith(SV) and t["args"]:
+            hb = P.bodies.get(d)
+            if hb is not None and hb.local_ty(1).startswith("&mut"):
+                l = L.root_local(ft, ft.expr(t["args"][0]))
+                if l in muts:
+                    muts[l].add(d[len(SV):])
+
+    def origin(l):
+        ds = ft.defs().get(l, [])
+        if len(ds) != 1:
+            return ("?", None)
+        bi, si, kind, payload = ds[0]
+        if kind == "call":
+            d = payload["f"].get("def", "")
+            if d.endswith("TokTrie::alloc_token_set"):
+                return ("alloc", None)
+            if d.endswith("Clone>::clone") and payload["args"]:
+                return ("clone", L.root_local(ft, ft.expr(payload["args"][0])))
+        if kind == "assign" and payload["rv"] == "use":
+            pl = F.op_place(payload["o"])
+            if pl and len(pl) == 1:
+                return origin(pl[0])
+        return ("?", None)
+    role_of = {}
+    for l in vob_locals:
+        o, src = origin(l)
+        if o == "alloc" and muts[l] and muts[l] <= {"allow_token", "set_all"}:
+            role_of[l] = "base"
+    bases = [l for l, r in role_of.items() if r == "base"]
+    for l in vob_locals:
+        o, src = origin(l)
+        if o == "clone" and src in bases:
+            if muts[l] and muts[l] <= {"sub"}:
+                role_of[l] = "residual"
+            elif muts[l] <= {"trim_trailing_zeros"}:
+                role_of[l] = "trimmed"
+    ctx.check(len(bases) == 1, "C10-R3", "slice-mask:one-base-mask", "one token set is allocated and filled by the match loop",
+              "expected one base mask (alloc_token_set + allow_token/set_all) in from_topo_node, found %d" % len(bases), site=ft.where())
+
+    def op_local(o):
+        """the variable an operand moves/copies/borrows from, through unnamed single-definition temporaries"""
+        pl = F.op_place(o)
+        if not pl:
+            return None
+        l = pl[0]
+        for _ in range(6):
+            ds = ft.defs().get(l, [])
+            if ft.locals[l].get("n") or len(ds) != 1 or ds[0][2] != "assign":
+                break
+            r = ds[0][3]
+            nxt = F.op_place(r["o"]) if r["rv"] == "use" else (r["p"] if r["rv"] == "ref" else None)
+            if not nxt:
+                break
+            l = nxt[0]
+        return l
+
+    def vob_role(o_or_e, is_expr=False):
+        if not is_expr:
+            l0 = op_local(o_or_e)
+            if l0 in role_of:
+                return role_of[l0]
+        e = o_or_e if is_expr else ft.expr(o_or_e)
+        l = L.root_local(ft, e)
+        if l is None and e[0] == "local":
+            l = e[1]
+        # moved named local -> temp
+        seen = 0
+        while l is not None and l not in role_of and seen < 4:
+            ds = ft.defs().get(l, [])
+            if len(ds) == 1 and ds[0][2] == "assign" and ds[0][3]["rv"] == "use":
+                pl = F.op_place(ds[0][3]["o"])
+                l = pl[0] if pl and len(pl) == 1 else None
+            else:
+                break
+            seen += 1
+        return role_of.get(l, "?")
+
+    # the tries are filtered from exactly: base, a per-child residual, the all-children residual
     fl = [bi for bi, t in ft.calls() if t["f"].get("def") == TRIE + "filter"]
     ctx.floor("C10-R3", "trie.filter sites in from_topo_node", len(fl), 3)
-    names = []
-    for bi in fl:
-        e = ft.expr(ft.blocks[bi]["term"]["args"][1])
-        l = L.root_local(ft, e)
-        names.append(ft.local_name(l) if l is not None else "?")
-    ctx.check(sorted(names) == ["m", "mask_with_children", "mask_without_children"], "C10-R3", "tries-filtered-from-masks",
-              "the three tries are filtered with mask_with_children, m (= with − child) and mask_without_children",
-              "trie.filter is applied to %s" % sorted(names), site=ft.where())
-    # mask_trimmed is a (trimmed) copy of mask_with_children
-    mt = None
-    for l, d in enumerate(ft.locals):
-        if d.get("n") == "mask_trimmed":
-            mt = l
-    if mt is None:
-        ctx.violation("C10-R3", "anchor-missing:from_topo_node.mask_trimmed", "local mask_trimmed not found")
-    else:
-        e = ft.expr_place([mt]) if len(ft.defs().get(mt, [])) == 1 else ("unknown",)
-        src = None
-        if e[0] == "call" and e[1].endswith("Clone>::clone") and e[2]:
-            src = L.root_local(ft, e[2][0])
-        ctx.check(src is not None and ft.local_name(src) == "mask_with_children", "C10-R3", "mask_trimmed:copy-of-mask_with_children",
-                  "mask_trimmed = mask_with_children.clone() (then trimmed)",
-                  "mask_trimmed is derived from %s: the OR-ed mask is not the slice's full token set" % (ft.local_name(src) if src is not None else F.fmt_expr(e)),
-                  site=ft.where())
-        # only trim_trailing_zeros mutates it
-        muts = set()
-        for bi, t in ft.calls():
-            d = t["f"].get("def", "")
-            if d.startswith(SV) and t["args"]:
-                e0 = ft.expr(t["args"][0])
-                if e0[0] in ("ref", "place") and e0[1][0] == mt and P.bodies.get(d) and P.bodies[d].local_ty(1).startswith("&mut"):
-                    muts.add(d[len(SV):])
-        ctx.check(muts <= {"trim_trailing_zeros"}, "C10-R3", "mask_trimmed:only-trimmed", "mask_trimmed is only trimmed of trailing zero words",
-                  "mask_trimmed is modified by %s" % sorted(muts), site=ft.where())
-    # struct literal wires fields to the like-named locals
+    froles = sorted(vob_role(ft.blocks[bi]["term"]["args"][1]) for bi in fl)
+    ctx.check(froles == ["base", "residual", "residual"], "C10-R3", "tries-filtered-from-masks",
+              "the three tries are filtered with the base mask and with two residual (base − child masks) masks",
+              "trie.filter is applied to masks with roles %s (expected base, residual, residual)" % froles, site=ft.where())
+    # struct literal: which value goes into which field
     inits = [x for x in L.struct_inits(P, TS) if x[0].id == ft.id]
     if ctx.floor("C10-R3", "TokenizerSlice literal", len(inits), 1):
         b, bi, fm, _ = inits[0]
-        for fld in ("trie_without_child", "trie_without_children", "trie_with_children", "mask_with_children", "mask_trimmed"):
-            nm = L.named_source(ft, fm[fld]) or F.fmt_expr(ft.expr(fm[fld]))
-            ctx.check(nm == fld, "C10-R3", "slice-fields:" + fld, "field %s is initialised from local %s" % (fld, nm),
-                      "TokenizerSlice.%s is initialised from `%s`" % (fld, nm), site=ft.where(bi))
+        def filter_arg_role(o):
+            e = ft.expr(o)
+            l = L.root_local(ft, e) if e[0] != "call" else None
+            if e[0] != "call" and l is not None:
+                ds = ft.defs().get(l, [])
+                if len(ds) == 1 and ds[0][2] == "call":
+                    e = ("call", ds[0][3]["f"].get("def", ""), [ft.expr(a) for a in ds[0][3]["args"]], ds[0][0])
+                elif len(ds) == 1 and ds[0][2] == "assign" and ds[0][3]["rv"] == "use":
+                    return filter_arg_role(ds[0][3]["o"])
+            if e[0] == "call" and e[1] == TRIE + "filter" and len(e[2]) >= 2:
+                return "filter(%s)" % vob_role(e[2][1], is_expr=True)
+            return "?"
+        want = {"mask_with_children": "base", "mask_trimmed": "trimmed"}
+        for fld, w in want.items():
+            r = vob_role(fm[fld])
+            ctx.check(r == w, "C10-R3", "slice-fields:" + fld, "field %s holds the %s mask" % (fld, w),
+                      "TokenizerSlice.%s is initialised from a mask with role `%s` (expected %s): the OR-ed mask is not the slice's "
+                      "full token set" % (fld, r, w), site=ft.where(bi))
+        for fld, w in (("trie_with_children", "filter(base)"), ("trie_without_children", "filter(residual)")):
+            r = filter_arg_role(fm[fld])
+            ctx.check(r == w, "C10-R3", "slice-fields:" + fld, "field %s = trie.%s" % (fld, w),
+                      "TokenizerSlice.%s is built as %s (expected %s)" % (fld, r, w), site=ft.where(bi))
+        # trie_without_child: a vector that receives filter(residual) per child
+        vl = op_local(fm["trie_without_child"])
+        pushed = []
+        for pbi, t in ft.calls():
+            if t["f"].get("def", "").endswith("Vec::<T, A>::push") and op_local(t["args"][0]) == vl and vl is not None:
+                pushed.append(filter_arg_role(t["args"][1]))
+        ctx.check(pushed == ["filter(residual)"], "C10-R3", "slice-fields:trie_without_child",
+                  "trie_without_child collects one filter(base − that child's mask) per child",
+                  "TokenizerSlice.trie_without_child collects %s" % pushed, site=ft.where(bi))
+        # the two residuals differ: the per-child one is created inside the child loop (a fresh clone per iteration), the
+        # all-children one before it — i.e. the per-child residual's clone is dominated by the recursive call's block
+        rec = ft.call_blocks(ft.id)
+        resid = [l for l, r in role_of.items() if r == "residual"]
+        inside = [l for l in resid if rec and all(ft.dominates(rb, ft.defs()[l][0][0]) for rb in rec)]
+        outside = [l for l in resid if l not in inside]
+        ctx.check(len(inside) == 1 and len(outside) == 1, "C10-R3", "residual-masks:per-child-and-all-children",
+                  "one residual is re-created per child (base − that child), one accumulates all children",
+                  "expected one per-child residual (cloned after the recursive call) and one accumulated residual, found %d / %d"
+                  % (len(inside), len(outside)), site=ft.where())
